@@ -83,7 +83,22 @@ try:
     from typing import ForwardRef  # type: ignore
 
     def evaluate_forward_ref(ref: ForwardRef, globalns: Any, localns: Any):
-        return typing._eval_type(ref, globalns, localns)  # noqa
+        code = getattr(ref, "__forward_code__", None)
+        if code is None or globalns is None:
+            return typing._eval_type(ref, globalns, localns)  # noqa
+        # only the reference itself is evaluated here. typing would go on and evaluate the references nested in the
+        # result ('List["Item"]' under postponed evaluation) and leave them marked as evaluated - but those objects
+        # sit in generic aliases that typing caches, so every declaration that spells List['Item'] shares them:
+        # each nested reference is evaluated by the caller, in the namespace of its own declaration
+        value = eval(code, globalns, localns if localns is not None else globalns)
+        if value is None:
+            value = type(None)
+        elif isinstance(value, str):
+            # a quoted name inside a string annotation: a reference again, of the same declaration
+            value = evaluate_forward_ref(ForwardRef(value), globalns, localns)
+        ref.__forward_value__ = value
+        ref.__forward_evaluated__ = True
+        return value
 
 except ImportError:
     # python 3.6
